@@ -846,4 +846,86 @@ theorem localMgStepAt_fixed (S : MGSetup K) (dir : ℕ → List ℕ) (h : MGFixH
 
 end fixedpoint
 
+/-! ### symmetry and semidefiniteness are inherited by the Galerkin matrices -/
+
+section inherit
+variable {K : Type} [Field K] [LinearOrder K] [IsStrictOrderedRing K]
+
+theorem galerkin_sym (n m : ℕ) (A P Ac : ℕ → ℕ → K)
+    (hsym : ∀ i < n, ∀ j < n, A i j = A j i)
+    (hAc : ∀ i < m, ∀ j < m, Ac i j = ∑ k ∈ range n, P k i * ∑ l ∈ range n, A k l * P l j) :
+    ∀ i < m, ∀ j < m, Ac i j = Ac j i := by
+  intro i hi j hj
+  rw [hAc i hi j hj, hAc j hj i hi]
+  simp only [mul_sum]
+  rw [sum_comm]
+  apply sum_congr rfl; intro l hl
+  apply sum_congr rfl; intro k hk
+  rw [hsym k (mem_range.mp hk) l (mem_range.mp hl)]; ring
+
+theorem galerkin_quadratic (n m : ℕ) (A P Ac : ℕ → ℕ → K) (C : ℕ → K)
+    (hsym : ∀ i < n, ∀ j < n, A i j = A j i)
+    (hAc : ∀ i < m, ∀ j < m, Ac i j = ∑ k ∈ range n, P k i * ∑ l ∈ range n, A k l * P l j) :
+    ∑ j ∈ range m, ∑ l ∈ range m, C j * Ac j l * C l
+      = ∑ i ∈ range n, ∑ k ∈ range n,
+          (∑ j ∈ range m, P i j * C j) * A i k * (∑ l ∈ range m, P k l * C l) := by
+  have key := galerkin_energy_identity n m A P Ac (fun _ => 0) (fun _ => 0) C hsym hAc
+  simp only [energy, zero_add, zero_mul, mul_zero, sum_const_zero, sub_zero, sub_self, zero_sub,
+    neg_zero, add_zero] at key
+  have h2 : (2 : K) ≠ 0 := two_ne_zero
+  have := mul_left_cancel₀ (by norm_num : (1 / 2 : K) ≠ 0) key
+  exact this.symm
+
+theorem galerkin_psd (n m : ℕ) (A P Ac : ℕ → ℕ → K)
+    (hsym : ∀ i < n, ∀ j < n, A i j = A j i)
+    (hpsd : ∀ v : ℕ → K, 0 ≤ ∑ i ∈ range n, ∑ j ∈ range n, v i * A i j * v j)
+    (hAc : ∀ i < m, ∀ j < m, Ac i j = ∑ k ∈ range n, P k i * ∑ l ∈ range n, A k l * P l j) :
+    ∀ v : ℕ → K, 0 ≤ ∑ i ∈ range m, ∑ j ∈ range m, v i * Ac i j * v j := by
+  intro v
+  rw [galerkin_quadratic n m A P Ac v hsym hAc]
+  exact hpsd (fun i => ∑ j ∈ range m, P i j * v j)
+
+/-- `MGHyp` from hypotheses on the finest matrix only (plus the Galerkin relation): symmetry and
+positive semidefiniteness propagate to every coarse level. -/
+theorem MGHyp.of_top (S : MGSetup K)
+    (symTop : ∀ i < S.size S.top, ∀ j < S.size S.top, S.A S.top i j = S.A S.top j i)
+    (psdTop : ∀ v : ℕ → K, 0 ≤ ∑ i ∈ range (S.size S.top), ∑ j ∈ range (S.size S.top), v i * S.A S.top i j * v j)
+    (gal : ∀ lv < S.top, ∀ i < S.size lv, ∀ j < S.size lv,
+      S.A lv i j = galerkinEntry (S.size (lv + 1)) (S.A (lv + 1)) (S.P lv) i j)
+    (ind : ∀ lv ≤ S.top, ∀ i ∈ S.ind lv, i < S.size lv ∧ 0 < S.A lv i i)
+    (nodup : ∀ lv ≤ S.top, (S.ind lv).Nodup)
+    (solve : ∀ lv ≤ S.top, ∀ rhs : List K, rhs.length = (S.ind lv).length →
+      ∀ k < (S.ind lv).length,
+        ∑ m ∈ range (S.ind lv).length,
+          S.A lv ((S.ind lv).getD k 0) ((S.ind lv).getD m 0) * (S.subSolve lv rhs).getD m 0 = rhs.getD k 0) :
+    MGHyp S := by
+  have both : ∀ d, d ≤ S.top →
+      (∀ i < S.size (S.top - d), ∀ j < S.size (S.top - d), S.A (S.top - d) i j = S.A (S.top - d) j i) ∧
+      (∀ v : ℕ → K, 0 ≤ ∑ i ∈ range (S.size (S.top - d)), ∑ j ∈ range (S.size (S.top - d)),
+        v i * S.A (S.top - d) i j * v j) := by
+    intro d
+    induction d with
+    | zero => intro _; exact ⟨symTop, psdTop⟩
+    | succ d ih =>
+      intro hd
+      obtain ⟨hs, hp⟩ := ih (by omega)
+      have hlv : S.top - (d + 1) < S.top := by omega
+      have e : S.top - (d + 1) + 1 = S.top - d := by omega
+      have hAc : ∀ i < S.size (S.top - (d + 1)), ∀ j < S.size (S.top - (d + 1)),
+          S.A (S.top - (d + 1)) i j = ∑ k ∈ range (S.size (S.top - d)),
+            S.P (S.top - (d + 1)) k i * ∑ l ∈ range (S.size (S.top - d)), S.A (S.top - d) k l * S.P (S.top - (d + 1)) l j := by
+        intro i hi j hj
+        rw [gal _ hlv i hi j hj, galerkinEntry_eq, e]
+      exact ⟨galerkin_sym _ _ _ _ _ hs hAc, galerkin_psd _ _ _ _ _ hs hp hAc⟩
+  have at_lv : ∀ lv ≤ S.top,
+      (∀ i < S.size lv, ∀ j < S.size lv, S.A lv i j = S.A lv j i) ∧
+      (∀ v : ℕ → K, 0 ≤ ∑ i ∈ range (S.size lv), ∑ j ∈ range (S.size lv), v i * S.A lv i j * v j) := by
+    intro lv hlv
+    have := both (S.top - lv) (by omega)
+    rwa [show S.top - (S.top - lv) = lv by omega] at this
+  exact { sym := fun lv hlv => (at_lv lv hlv).1, gal := gal, ind := ind, nodup := nodup,
+          psd := fun lv hlv => (at_lv lv hlv).2, solve := solve }
+
+end inherit
+
 end Pyiga.Relax
